@@ -13,6 +13,7 @@ import (
 	"saoverif/internal/cfgx"
 	"saoverif/internal/core"
 	"saoverif/internal/guard"
+	"saoverif/internal/prog"
 	"saoverif/internal/term"
 )
 
@@ -401,6 +402,8 @@ func checkC02(r *core.Run) {
 	ruleL1(r)
 	ruleL2(r)
 	ruleL2Couple(r)
+	r.Rule("L2-nilarg: a parameter that is the constant nil at a call site in block-hook scope is tested != nil before being handed to a dependency call")
+	ruleL2NilArg(r)
 	// the subtrahend of the end-block subtraction TotalShardPledged.Sub(shard.Pledge) (ShardRelease, reached from
 	// HandleExpiredShard) is kept within the minuend only if every persisted Shard.Pledge := v adds v to it
 	r.Rule("T-couple(Shard.Pledge): every persisted Shard.Pledge := v moves Pledge.TotalShardPledged by v; otherwise releasing the shard in the end-blocker subtracts more than was added (negative coin panic outside recovery)")
@@ -608,4 +611,108 @@ func ruleL2Couple(r *core.Run) {
 		}
 	}
 	r.Floor("l2_couple_sites", n, 1)
+}
+
+// ---- L2-nilarg: a parameter that is the constant nil at some call site in
+// block-hook scope must be nil-tested before it is handed on to a dependency
+// (for example staking.Delegation(ctx, nil, val) returns a nil interface whose
+// method call panics inside the staking end-blocker).
+func ruleL2NilArg(r *core.Run) {
+	scope, _ := blockHookFuncs(r)
+	n := 0
+	for _, g := range r.P.SortedFuncs(scope) {
+		if r.P.IsGenerated(g) || len(g.Blocks) == 0 {
+			continue
+		}
+		// parameters that receive a constant nil from a caller in scope
+		nilParam := map[int]bool{}
+		for _, caller := range r.P.CG.In[g] {
+			if !scope[caller] {
+				continue
+			}
+			for _, site := range r.P.CG.Sites[caller] {
+				hit := false
+				for _, c := range site.Callees {
+					if c == g {
+						hit = true
+					}
+				}
+				if !hit {
+					continue
+				}
+				args := site.Instr.Common().Args
+				off := 0
+				if site.Instr.Common().IsInvoke() {
+					off = 1
+				}
+				for i, a := range args {
+					if c, ok := a.(*ssa.Const); ok && c.Value == nil && c.IsNil() {
+						nilParam[i+off] = true
+					}
+				}
+			}
+		}
+		if len(nilParam) == 0 {
+			continue
+		}
+		res := r.Resolver(g)
+		ck := &guard.Checker{P: r.P, Fn: g, Res: res}
+		for pi := range nilParam {
+			if pi >= len(g.Params) {
+				continue
+			}
+			p := g.Params[pi]
+			cnt := 0
+			for _, b := range g.Blocks {
+				for _, ins := range b.Instrs {
+					c, ok := ins.(ssa.CallInstruction)
+					if !ok {
+						continue
+					}
+					name, callees := res.CalleeName(c.Common())
+					if len(callees) > 0 && r.P.Funcs != nil {
+						allMod := true
+						for _, cal := range callees {
+							if cal.Blocks == nil || !prog.InModule(pkgPathOf(cal)) {
+								allMod = false
+							}
+						}
+						if allMod {
+							continue // handed to module code: checked there if nil flows on
+						}
+					}
+					args := c.Common().Args
+					start := 0
+					if !c.Common().IsInvoke() && c.Common().Signature().Recv() != nil {
+						start = 1 // a method on the parameter itself (AccAddress.String, Empty...) is nil-safe for the sdk address types
+					}
+					for ai := start; ai < len(args); ai++ {
+						if args[ai] != ssa.Value(p) {
+							continue
+						}
+						n++
+						cnt++
+						key := core.Key("L2-nilarg", r.P.Name(g), fmt.Sprintf("%s passed to %s#%d", p.Name(), name, cnt))
+						ok2, w := ck.MustPass(b, []guard.Atom{guard.Ne(fmt.Sprintf("#%d", pi), "nil")})
+						if ok2 {
+							r.Discharge("L2-nilarg", key, r.P.Pos(c.Pos()), fmt.Sprintf("parameter %s is nil at a block-hook call site and is tested != nil before it is handed to %s", p.Name(), name))
+						} else {
+							r.Violate("L2-nilarg", key, r.P.Pos(c.Pos()), fmt.Sprintf("parameter %s of %s is the constant nil at a call site reached from the staking end-blocker hooks, and is handed to %s without a dominating %s != nil: the dependency returns a nil result for a nil address and the following method call on it panics outside panic recovery (chain halt)", p.Name(), r.P.Name(g), name, p.Name()), append([]string{"path (branch decisions):"}, w...)...)
+						}
+					}
+				}
+			}
+		}
+	}
+	r.Floor("nil_param_handoffs", n, 1)
+}
+
+func pkgPathOf(f *ssa.Function) string {
+	if f.Pkg != nil {
+		return f.Pkg.Pkg.Path()
+	}
+	if f.Object() != nil && f.Object().Pkg() != nil {
+		return f.Object().Pkg().Path()
+	}
+	return ""
 }
